@@ -140,9 +140,13 @@ Definition KI (k : k2) (pre : list msg) (cs : chst) : Prop :=
   | Some idx => last_idx (onpitch (snd k)) (c_pairs cs) = Some idx /\ alt_run k false pre = Some true
   | None => alt_run k false pre = Some false
   end.
+(* pairings that do not start with a NOTE_ON; the messages of channel ch that create such a singleton pairing *)
+Definition nonon (p : pairing) : bool := negb (is_on (p_first p)).
+Definition single (ch : Z) (m : msg) : bool := (is_ts m || is_internal m) && (m_chan m =? ch).
 Definition CInv (pre : list msg) (ch : Z) (cs : chst) : Prop :=
   uniq (c_open cs) /\ (forall n, KI (ch, n) pre cs) /\ Forall (pgood pre ch) (c_pairs cs) /\
-  ForallOrdPairs mle (map p_first (c_pairs cs)).
+  ForallOrdPairs mle (map p_first (c_pairs cs)) /\
+  map p_first (filter nonon (c_pairs cs)) = filter (single ch) pre.
 Definition PInv (pre : list msg) (st : list (Z * chst)) : Prop :=
   uniq st /\ (forall ch cs, dget Z.eqb ch st = Some cs -> c_pairs cs <> []) /\ forall ch, CInv pre ch (chan_of ch st).
 
@@ -178,12 +182,17 @@ Qed.
 Lemma nkey_nonnote k m : is_note m = false -> nkey k m = false.
 Proof. unfold nkey. now intros ->. Qed.
 
-Lemma CInv_frame pre m ch cs : (forall n, nkey (ch, n) m = false) -> CInv pre ch cs -> CInv (pre ++ [m]) ch cs.
+Lemma CInv_frame pre m ch cs : (forall n, nkey (ch, n) m = false) -> single ch m = false ->
+  CInv pre ch cs -> CInv (pre ++ [m]) ch cs.
 Proof.
-  intros H (H1 & H2 & H3 & H4). split; [exact H1|]. split; [|split; [|exact H4]].
+  intros H Hs (H1 & H2 & H3 & H4 & H5). split; [exact H1|]. split; [|split; [|split; [exact H4|]]].
   - intros n. apply KI_frame; [apply H|apply H2].
   - eapply Forall_impl; [|exact H3]. intros p. apply pgood_mono.
+  - rewrite filter_app. cbn [filter]. rewrite Hs, app_nil_r. exact H5.
 Qed.
+
+Lemma single_other_chan ch m : m_chan m <> ch -> single ch m = false.
+Proof. intros H. unfold single. destruct (Z.eqb_spec (m_chan m) ch); [contradiction|apply andb_false_r]. Qed.
 
 Lemma PInv_update pre st m cs' :
   PInv pre st -> CInv (pre ++ [m]) (m_chan m) cs' -> c_pairs cs' <> [] ->
@@ -192,13 +201,15 @@ Proof.
   intros (Hu & Hne & Hc) Hc' Hne'. split; [apply uniq_dset; [apply Z.eqb_eq|exact Hu]|]. split.
   - intros ch cs. rewrite dgetZ_dset. destruct (ch =? m_chan m); [intros [= <-]; exact Hne'|apply Hne].
   - intros ch. unfold chan_of. rewrite dgetZ_dset. destruct (Z.eqb_spec ch (m_chan m)) as [->|E]; [exact Hc'|].
-    apply CInv_frame; [|apply Hc]. intros n. apply nkey_other_chan. congruence.
+    apply CInv_frame; [| |apply Hc]; [intros n; apply nkey_other_chan; congruence|apply single_other_chan; congruence].
 Qed.
 
-Lemma PInv_skip pre st m : is_note m = false -> PInv pre st -> PInv (pre ++ [m]) st.
+Lemma PInv_skip pre st m : is_note m = false /\ is_ts m = false /\ is_internal m = false ->
+  PInv pre st -> PInv (pre ++ [m]) st.
 Proof.
-  intros Hn (Hu & Hne & Hc). split; [exact Hu|]. split; [exact Hne|].
-  intros ch. apply CInv_frame; [|apply Hc]. intros n. now apply nkey_nonnote.
+  intros (Hn & Ht & Hi) (Hu & Hne & Hc). split; [exact Hu|]. split; [exact Hne|].
+  intros ch. apply CInv_frame; [| |apply Hc]; [intros n; now apply nkey_nonnote|].
+  unfold single. now rewrite Ht, Hi.
 Qed.
 
 Lemma Forall_set_nth' {A} (P : A -> Prop) (f : A -> A) : (forall x, P x -> P (f x)) ->
@@ -214,7 +225,7 @@ Lemma type_flags m :
   | NOTE_OFF => is_on m = false /\ is_off m = true /\ is_note m = true
   | TIME_SIGNATURE => is_on m = false /\ is_note m = false /\ is_ts m = true
   | INTERNAL => is_on m = false /\ is_note m = false /\ is_internal m = true
-  | _ => is_note m = false
+  | _ => is_note m = false /\ is_ts m = false /\ is_internal m = false
   end.
 Proof. unfold is_note, is_on, is_off, is_ts, is_internal, mtype_eqb. destruct (m_type m); cbn; auto. Qed.
 
@@ -223,9 +234,9 @@ Lemma CInv_single pre i m cs :
   is_note m = false -> ftype m = true -> (forall x, In x pre -> m_time x <= m_time m) ->
   CInv pre (m_chan m) cs -> CInv (pre ++ [m]) (m_chan m) (mkch (c_pairs cs ++ [((i, m), None)]) (c_open cs)).
 Proof.
-  intros Hn Hf Hle (H1 & H2 & H3 & H4).
+  intros Hn Hf Hle (H1 & H2 & H3 & H4 & H5).
   assert (Hon : is_on m = false) by (destruct (is_on m) eqn:E; [apply on_is_note in E; congruence|reflexivity]).
-  split; [exact H1|]. split; [|split].
+  split; [exact H1|]. split; [|split; [|split]].
   - intros n. destruct (H2 n) as [K1 K2]. destruct (KI_frame _ _ m _ (nkey_nonnote (m_chan m, n) m Hn) (conj K1 K2)) as [K1' K2'].
     split; cbn [c_pairs c_open snd] in *.
     + rewrite filter_app. cbn [filter]. rewrite onpitch_new. rewrite Hon. cbn [andb].
@@ -238,6 +249,11 @@ Proof.
   - cbn [c_pairs]. rewrite map_app. apply FOP_app; [exact H4|repeat constructor|].
     intros x y Hx [<-|[]]. apply in_map_iff in Hx. destruct Hx as (p & <- & Hp).
     rewrite Forall_forall in H3. destruct (H3 p Hp) as (_ & Hin & _). apply Hle, Hin.
+  - cbn [c_pairs]. rewrite !filter_app, map_app, H5. cbn [filter]. unfold nonon at 1. cbn [p_first fst snd].
+    rewrite Hon. cbn [negb map].
+    assert (single (m_chan m) m = true) as ->.
+    { unfold single. unfold ftype in Hf. rewrite Hon in Hf. cbn [orb] in Hf. now rewrite Hf, Z.eqb_refl. }
+    reflexivity.
 Qed.
 
 Lemma pair_step_inv pre st i m :
@@ -246,7 +262,8 @@ Lemma pair_step_inv pre st i m :
 Proof.
   intros Hnf Hle HP. pose proof (type_flags m) as TF. unfold pair_step.
   fold (chan_of (m_chan m) st). set (cs := chan_of (m_chan m) st).
-  pose proof HP as (Hu & Hne & Hc). destruct (Hc (m_chan m)) as (Huo & Hki & Hpg & Hso). fold cs in Huo, Hki, Hpg, Hso.
+  pose proof HP as (Hu & Hne & Hc). destruct (Hc (m_chan m)) as (Huo & Hki & Hpg & Hso & Hsg).
+  fold cs in Huo, Hki, Hpg, Hso, Hsg.
   set (k0 := (m_chan m, m_note m)).
   destruct (m_type m) eqn:T; cbn [tmem TOK_TYPES existsb mtype_eqb mtype_rank Z.eqb negb orb Pos.eqb];
     try (apply PInv_skip; [exact TF|exact HP]).
@@ -272,7 +289,7 @@ Proof.
     pose proof (alt_run_popen k0 pre false true None Hopen eq_refl) as Hpo.
     destruct (popen None (kp k0 pre)) as [on|] eqn:Hpop; [clear Hpo|discriminate].
     apply PInv_update; [exact HP| |cbn [c_pairs]; rewrite Hset; now destruct A].
-    split; [cbn [c_open]; apply uniq_ddel; exact Huo|]. split; [|split].
+    split; [cbn [c_open]; apply uniq_ddel; exact Huo|]. split; [|split; [|split]].
     + intros n. destruct (Z.eq_dec n (m_note m)) as [->|Hneq].
       * fold k0. split; cbn [c_pairs c_open snd k0].
         -- rewrite Hset, kp_snoc, Hk0. rewrite HAB in Hmap. rewrite filter_app in Hmap |- *. cbn [filter] in Hmap |- *.
@@ -297,6 +314,11 @@ Proof.
     + cbn [c_pairs]. apply Forall_set_nth'; [intros x Hx; exact Hx|].
       eapply Forall_impl; [|exact Hpg]. intros q. apply pgood_mono.
     + cbn [c_pairs]. rewrite map_set_nth; [exact Hso|]. intros x. reflexivity.
+    + cbn [c_pairs]. rewrite Hset. rewrite HAB in Hsg. rewrite (filter_app (single (m_chan m)) pre [m]).
+      rewrite filter_app in Hsg. rewrite (filter_app nonon A). cbn [filter] in Hsg |- *.
+      change (nonon (close_with (Some i, m) p)) with (nonon p).
+      assert (single (m_chan m) m = false) as -> by (unfold single, is_ts, is_internal, mtype_eqb; now rewrite T).
+      rewrite app_nil_r, <- Hsg. destruct (nonon p); rewrite !map_app; reflexivity.
   - (* NOTE_ON *)
     destruct TF as (Hon & Hoff & Hn).
     assert (Hk0 : nkey k0 m = true) by (unfold nkey, k0; now rewrite Hn, k2_eqb_refl).
@@ -308,7 +330,7 @@ Proof.
     pose proof (alt_run_popen k0 pre false false None Hclosed eq_refl) as Hpo.
     destruct (popen None (kp k0 pre)) as [on|] eqn:Hpop; [discriminate|clear Hpo].
     apply PInv_update; [exact HP| |cbn [c_pairs]; now destruct (c_pairs cs)].
-    split; [cbn [c_open]; apply uniq_dset; [apply Z.eqb_eq|exact Huo]|]. split; [|split].
+    split; [cbn [c_open]; apply uniq_dset; [apply Z.eqb_eq|exact Huo]|]. split; [|split; [|split]].
     + intros n. destruct (Z.eq_dec n (m_note m)) as [->|Hneq].
       * fold k0. split; cbn [c_pairs c_open snd k0].
         -- rewrite filter_app, map_app, Hmap, kp_snoc, Hk0. cbn [filter]. rewrite onpitch_new.
@@ -333,6 +355,9 @@ Proof.
     + cbn [c_pairs]. rewrite map_app. apply FOP_app; [exact Hso|repeat constructor|].
       intros x y Hx [<-|[]]. apply in_map_iff in Hx. destruct Hx as (q & <- & Hq).
       rewrite Forall_forall in Hpg. destruct (Hpg q Hq) as (_ & Hin & _). apply Hle, Hin.
+    + cbn [c_pairs]. rewrite !filter_app. cbn [filter]. unfold nonon at 2. cbn [p_first fst snd]. rewrite Hon.
+      cbn [negb]. assert (single (m_chan m) m = false) as -> by (unfold single, is_ts, is_internal, mtype_eqb; now rewrite T).
+      rewrite !app_nil_r. exact Hsg.
 Qed.
 
 (* ================================================================ the whole loop *)
@@ -356,7 +381,7 @@ Qed.
 Lemma PInv_init : PInv [] [].
 Proof.
   split; [constructor|]. split; [intros ch cs H; discriminate|].
-  intros ch. split; [constructor|]. split; [|split; constructor].
+  intros ch. split; [constructor|]. split; [|split; [constructor|split; [constructor|reflexivity]]].
   intros n. split; reflexivity.
 Qed.
 
@@ -394,7 +419,8 @@ Theorem pairings_tok std S : tsorted S = true -> (forall k, alt k false S = true
   (forall ch pl, In (ch, pl) (pairings_sorted TOK_TYPES std true S) ->
      pl <> [] /\ Forall (pgood S ch) pl /\ ForallOrdPairs mle (map p_first pl)) /\
   (forall ch n, map strip (filter (onpitch n) (chan_pairs ch (pairings_sorted TOK_TYPES std true S))) =
-                cpairs None (kp (ch, n) S)).
+                cpairs None (kp (ch, n) S)) /\
+  (forall ch, map p_first (filter nonon (chan_pairs ch (pairings_sorted TOK_TYPES std true S))) = filter (single ch) S).
 Proof.
   intros Hs Halt. unfold pairings_sorted.
   set (st := fold_left (pair_step TOK_TYPES true) (index_from 0 S) []).
@@ -416,14 +442,17 @@ Proof.
   assert (HPeq : map (fun kv : Z * chst => (fst kv, map (impute_close std true) (c_pairs (snd kv)))) st =
                  map (fun kv : Z * chst => (fst kv, c_pairs (snd kv))) st).
   { apply map_ext_in. intros [ch cs] Hin. cbn [fst snd]. f_equal. apply (Hid ch). now apply In_dget. }
-  rewrite HPeq. split; [|split].
+  rewrite HPeq. split; [|split; [|split]].
   - unfold uniq. rewrite map_map. cbn [fst]. exact Hu.
   - intros ch pl Hin. apply in_map_iff in Hin. destruct Hin as ([ch' cs] & E & Hin). cbn [fst snd] in E.
     injection E as -> <-. pose proof (In_dget _ _ _ Hu Hin) as G. split; [now apply Hne with ch|].
-    destruct (Hc ch) as (_ & _ & H3 & H4). unfold chan_of in H3, H4. rewrite G in H3, H4. now split.
+    destruct (Hc ch) as (_ & _ & H3 & H4 & _). unfold chan_of in H3, H4. rewrite G in H3, H4. now split.
   - intros ch n. unfold chan_pairs. rewrite (dget_map_vals c_pairs ch st).
     destruct (Hc ch) as (_ & Hk & _). destruct (Hk n) as [Hm _]. cbn [snd] in Hm.
     unfold pairs_from in Hm. rewrite Hclosed, app_nil_r in Hm. rewrite <- Hm. unfold chan_of.
+    destruct (dget Z.eqb ch st); reflexivity.
+  - intros ch. unfold chan_pairs. rewrite (dget_map_vals c_pairs ch st).
+    destruct (Hc ch) as (_ & _ & _ & _ & H5). rewrite <- H5. unfold chan_of.
     destruct (dget Z.eqb ch st); reflexivity.
 Qed.
 
@@ -566,3 +595,62 @@ Proof.
   intros H. unfold interleaved. destruct (pairings_sorted types std imp S) as [|[c pl] ps] eqn:E; [reflexivity|].
   cbn [map concat snd]. destruct pl as [|p pl]; [|reflexivity]. exfalso. now apply (H c []); [left|].
 Qed.
+
+(* ================================================================ interleave keeps every channel's order *)
+Lemma map_fst_set_nth (l : list (Z * list pairing)) : forall j c p ps, nth_error l j = Some (c, p :: ps) ->
+  map fst (set_nth j (fun _ => (c, ps)) l) = map fst l.
+Proof.
+  induction l as [|kv l IH]; intros j c p ps H; [destruct j; discriminate|].
+  destruct j as [|j]; cbn [nth_error set_nth map] in *.
+  - injection H as ->. reflexivity.
+  - f_equal. now apply IH with p.
+Qed.
+
+Lemma dget_set_nth_key (l : list (Z * list pairing)) : forall j c p ps ch, uniq l -> nth_error l j = Some (c, p :: ps) ->
+  dget Z.eqb ch (set_nth j (fun _ => (c, ps)) l) = if ch =? c then Some ps else dget Z.eqb ch l.
+Proof.
+  unfold uniq. induction l as [|[k v] l IH]; intros j c p ps ch Hu H; [destruct j; discriminate|].
+  cbn [map fst] in Hu. inversion Hu as [|? ? Hn Hu']; subst.
+  destruct j as [|j]; cbn [nth_error set_nth dget] in *.
+  - injection H as -> ->. destruct (ch =? c); reflexivity.
+  - rewrite (IH j c p ps ch Hu' H). destruct (Z.eqb_spec ch k) as [->|Hne]; [|reflexivity].
+    destruct (Z.eqb_spec k c) as [->|_]; [|reflexivity].
+    exfalso. apply Hn. apply nth_error_In in H. apply in_map_iff. exists (c, p :: ps). now split.
+Qed.
+
+Lemma chan_pairs_nil ch (l : list (Z * list pairing)) : Forall (fun kv => snd kv = []) l -> chan_pairs ch l = [].
+Proof.
+  unfold chan_pairs. induction 1 as [|[k v] l H _ IH]; [reflexivity|]. cbn [snd] in H. subst v. cbn [dget].
+  destruct (ch =? k); [reflexivity|exact IH].
+Qed.
+
+Lemma flat_nil_inv l : flat l = [] -> Forall (fun kv : Z * list pairing => snd kv = []) l.
+Proof.
+  induction l as [|[k v] l IH]; intros H; [constructor|]. unfold flat in H. cbn [flat_map fst snd] in H.
+  apply app_eq_nil in H. destruct H as [H1 H2]. constructor; [cbn [snd]; now destruct v|now apply IH].
+Qed.
+
+Lemma interleave_fuel_chan ch : forall fuel l, uniq l -> (length (flat l) <= fuel)%nat ->
+  filter (fun e => fst e =? ch) (interleave_fuel fuel l) = map (pair ch) (chan_pairs ch l).
+Proof.
+  induction fuel as [|fuel IH]; intros l Hu Hlen.
+  - destruct (flat l) eqn:E; [|cbn in Hlen; lia]. rewrite chan_pairs_nil by now apply flat_nil_inv. reflexivity.
+  - cbn [interleave_fuel]. pose proof (min_head_spec l 0 None) as Hm.
+    destruct (min_head l 0 None) as [[j t]|].
+    + destruct Hm as (H1 & _ & _). destruct H1 as [H1|(c & p & ps & _ & Hn & _)]; [discriminate|].
+      rewrite Nat.sub_0_r in Hn. rewrite Hn. set (l' := set_nth j (fun _ => (c, ps)) l).
+      assert (Hu' : uniq l') by (unfold uniq, l'; rewrite (map_fst_set_nth l j c p ps Hn); exact Hu).
+      assert (Hlen' : (length (flat l') <= fuel)%nat).
+      { pose proof (flat_set_nth l j c p ps Hn) as Hp. apply Permutation_length in Hp. cbn [length] in Hp.
+        fold l' in Hp. lia. }
+      cbn [filter fst]. rewrite (IH l' Hu' Hlen'). unfold chan_pairs. unfold l'.
+      rewrite (dget_set_nth_key l j c p ps ch Hu Hn).
+      destruct (Z.eqb_spec c ch) as [->|Hne].
+      * rewrite Z.eqb_refl. rewrite (In_dget l ch (p :: ps) Hu (nth_error_In _ _ Hn)). reflexivity.
+      * destruct (Z.eqb_spec ch c); [congruence|reflexivity].
+    + destruct Hm as [_ Hm]. now rewrite chan_pairs_nil.
+Qed.
+
+Theorem interleave_chan ch l : uniq l ->
+  filter (fun e => fst e =? ch) (interleave l) = map (pair ch) (chan_pairs ch l).
+Proof. intros H. unfold interleave. apply interleave_fuel_chan; [exact H|rewrite flat_length; lia]. Qed.
